@@ -236,7 +236,16 @@ func VerifC10_Lifecycle() {
 	pc.SnapshotFromStore()
 	if failAdd {
 		// the first write of the sync fails (that is the finalizer write when one is due)
-		w.Srv.ArmFault(0, env.FaultInternal, "things", false)
+		// (whatever the reason: a 500, a 422 "invalid", a 403 from RBAC or an
+		// admission webhook - no kind of refusal lets the sync go on without it)
+		kind := env.FaultInternal
+		switch rt.Choice("finalizer-add-refused-with", 3) {
+		case 1:
+			kind = env.FaultInvalid
+		case 2:
+			kind = env.FaultForbidden
+		}
+		w.Srv.ArmFault(0, kind, "things", false)
 	}
 	err := pc.syncParentObject(pc.W.Srv.All("things")[0])
 	rt.Observe("err", err != nil)
